@@ -811,6 +811,8 @@ impl FixtureDatabase {
     fn find_yield_in_stmt(&self, stmt: &Stmt, line_index: &[usize]) -> Option<usize> {
         match stmt {
             Stmt::Expr(expr_stmt) => self.find_yield_in_expr(&expr_stmt.value, line_index),
+            // `value = yield resource`
+            Stmt::Assign(assign) => self.find_yield_in_expr(&assign.value, line_index),
             Stmt::If(if_stmt) => {
                 // Check body
                 for s in &if_stmt.body {
